@@ -12,10 +12,10 @@ from dissect.cobaltstrike.beacon import BeaconConfig, BeaconSetting, SETTING_TO_
 comp = Component("views-agree",
                  "random settings lists (0-12 settings; indices from all declared, aliased (16,17,36,48), unknown (75, 79, 4095, 65535); "
                  "types 0-3 (settings that have a pretty-printer get the type it expects); lengths 0-40, SHORT/INT values of 2/4 bytes and, for a fifth of them, non-canonical lengths 0-8; duplicates allowed) + terminator/padding/trailing bytes; "
-                 "300 blocks quick / 20000 thorough, seed=VERIF_SEED")
+                 "1000 blocks quick / 20000 thorough, seed=VERIF_SEED")
 DECL = sorted({m.value for m in BeaconSetting})
 PRETTY = {k.value for k in SETTING_TO_PRETTYFUNC}
-N = 300 if TIER == "quick" else 20000
+N = 1000 if TIER == "quick" else 20000
 for _ in range(N):
     settings = []
     for _ in range(rng.randrange(0, 13)):
@@ -91,7 +91,7 @@ c_ref = Component("decode-vs-reference-tlv",
                   "random blocks of 0-8 records incl. User-Agent records (index 9) of declared length 127/128/129/144 with and without NUL "
                   "bytes and arbitrary following bytes, index 36 with every type 0-3, unknown indices, zero-length values, truncated last "
                   "records, missing terminator, trailing garbage: (index, deprecated-alias flag, type, length, value) of every decoded "
-                  "setting equals a reference decoder written from the property statement; 400 blocks quick / 20000 thorough")
+                  "setting equals a reference decoder written from the property statement; 1000 blocks quick / 20000 thorough")
 
 
 def ref_decode(b):
@@ -115,7 +115,7 @@ def ref_decode(b):
     return out
 
 
-M = 400 if TIER == "quick" else 20000
+M = 1000 if TIER == "quick" else 20000
 for _ in range(M):
     recs = b""
     for _ in range(rng.randrange(0, 9)):
